@@ -7,7 +7,7 @@
 use std::{
     collections::HashMap,
     hash::{BuildHasher, Hash},
-    time::{Duration, Instant},
+    time::{Duration, Instant, SystemTime},
 };
 
 #[cfg(feature = "serde1")]
@@ -33,6 +33,18 @@ impl TimeUntil for Instant {
 /// of roughly 2^36 ms (a little over two years) or more, so longer deadlines are armed in steps:
 /// when a timer armed with this span fires before the deadline, it is armed again.
 pub const MAX_TIMER_SPAN: Duration = Duration::from_secs(365 * 24 * 60 * 60);
+
+/// The wall-clock time of a deadline, for display in trace spans. Saturates at the last instant
+/// `humantime` can render (year 9999) rather than overflowing `SystemTime` arithmetic or failing
+/// to format.
+pub fn deadline_as_system_time(deadline: &Instant) -> SystemTime {
+    // 9999-12-31T23:59:59Z
+    let max = SystemTime::UNIX_EPOCH + Duration::from_secs(253_402_300_799);
+    match SystemTime::now().checked_add(deadline.time_until()) {
+        Some(time) if time <= max => time,
+        _ => max,
+    }
+}
 
 /// Collection compaction; configurable `shrink_to_fit`.
 pub trait Compact {
